@@ -7,6 +7,7 @@
 package termincommittee
 
 import (
+	"bytes"
 	"context"
 	"fmt"
 	"github.com/orbs-network/lean-helix-go/instrumentation/metrics"
@@ -357,6 +358,24 @@ func (tic *TermInCommittee) onElectedByViewChange(view primitives.View, viewChan
 	}
 }
 
+// A signed header must be exactly the encoding of its fields: readers ignore bytes that follow the last field, but
+// signatures cover them, and proofs are rebuilt from the fields, so a signature over padded bytes would not verify there.
+func isCanonicalBlockRef(ref *protocol.BlockRef) bool {
+	canonical := (&protocol.BlockRefBuilder{
+		MessageType: ref.MessageType(),
+		InstanceId:  ref.InstanceId(),
+		BlockHeight: ref.BlockHeight(),
+		View:        ref.View(),
+		BlockHash:   ref.BlockHash(),
+	}).Build()
+	return bytes.Equal(canonical.Raw(), ref.Raw())
+}
+
+func isCanonicalViewChange(vcm *protocol.ViewChangeMessageContent) bool {
+	reencoded := interfaces.ExtractConfirmationsFromViewChangeMessages([]*interfaces.ViewChangeMessage{interfaces.NewViewChangeMessage(vcm, nil)})[0].Build()
+	return bytes.Equal(reencoded.SignedHeader().Raw(), vcm.SignedHeader().Raw())
+}
+
 func (tic *TermInCommittee) sendConsensusMessage(message interfaces.ConsensusMessage) error {
 	tic.logger.Debug("LHMSG SEND sendConsensusMessage() target=ALL, msgType=%v", message.MessageType())
 	rawMessage := interfaces.CreateConsensusRawMessage(message)
@@ -418,6 +437,9 @@ func (tic *TermInCommittee) validatePreprepare(ppm *interfaces.PreprepareMessage
 	if header.MessageType() != protocol.LEAN_HELIX_PREPREPARE {
 		return fmt.Errorf("signed header is of type %v and not PREPREPARE", header.MessageType())
 	}
+	if !isCanonicalBlockRef(header) {
+		return fmt.Errorf("signed header is not canonically encoded")
+	}
 	if err := tic.keyManager.VerifyConsensusMessage(header.BlockHeight(), header.Raw(), sender); err != nil {
 		tic.logger.ConsensusTrace("failed to verify preprepare - maybe a committee mismatch?", err, log.Stringable("sender", sender))
 
@@ -471,6 +493,10 @@ func (tic *TermInCommittee) HandlePrepare(pm *interfaces.PrepareMessage) {
 	}
 	if header.MessageType() != protocol.LEAN_HELIX_PREPARE {
 		tic.logger.Info("LHMSG RECEIVED PREPARE IGNORE - signed header is of type %v", header.MessageType())
+		return
+	}
+	if !isCanonicalBlockRef(header) {
+		tic.logger.Info("LHMSG RECEIVED PREPARE IGNORE - signed header is not canonically encoded")
 		return
 	}
 	if !proofsvalidator.IsInMembers(tic.committeeMembers, sender.MemberId()) {
@@ -563,6 +589,10 @@ func (tic *TermInCommittee) HandleCommit(cm *interfaces.CommitMessage) {
 	}
 	if header.MessageType() != protocol.LEAN_HELIX_COMMIT {
 		tic.logger.Info("LHMSG RECEIVED COMMIT IGNORE - signed header is of type %v", header.MessageType())
+		return
+	}
+	if !isCanonicalBlockRef(header) {
+		tic.logger.Info("LHMSG RECEIVED COMMIT IGNORE - signed header is not canonically encoded")
 		return
 	}
 	if !proofsvalidator.IsInMembers(tic.committeeMembers, sender.MemberId()) {
@@ -687,6 +717,10 @@ func (tic *TermInCommittee) isViewChangeValid(expectedLeaderFromNewView primitiv
 
 	if header.MessageType() != protocol.LEAN_HELIX_VIEW_CHANGE {
 		return errors.Errorf("signed header is of type %v and not VIEW_CHANGE", header.MessageType())
+	}
+
+	if !isCanonicalViewChange(vcm) {
+		return errors.Errorf("signed header is not canonically encoded")
 	}
 
 	if err := tic.keyManager.VerifyConsensusMessage(header.BlockHeight(), header.Raw(), sender); err != nil {
